@@ -34,3 +34,10 @@ Example C08_nonvacuous :
   to_bxcan (mkF true false true false 1365 21845 8 [85; 85; 85; 85; 85; 85; 85; 85]) = Val (mkCF true false 335893845 8 [85; 85; 85; 85; 85; 85; 85; 85]) /\
   wf_canframe (mkCF true false 536870911 3 [1; 2; 3]) = true.
 Proof. repeat split; reflexivity. Qed.
+
+(* the extracted checkers accept the model's observations: for every well-formed frame (encode side) and every driver-constructible CAN frame (decode side) *)
+Require Import RP.Glue.Wire RP.Glue.StreamFrame RP.Lemmas.GlueLemmas.
+Theorem C08_checker_accepts_model_encode : forall f, wf_frame f = true -> ok_C08_CAE (show_frame f) (run_CAE (show_frame f)) = [].
+Proof. exact ok_C08_CAE_accepts_model. Qed.
+Theorem C08_checker_accepts_model_decode : forall c, wf_canframe c = true -> ok_C08_CAD (show_can c) (run_CAD (show_can c)) = [].
+Proof. exact ok_C08_CAD_accepts_model. Qed.
